@@ -29,7 +29,14 @@ def strategy_for(profiles, tier="quick"):
     k = max(1, len(opts) // 6)
     opts += [simgen.coincide()] * k + [simgen.crowd()] * k + [simgen.churn()] * max(1, k // 2) \
         + [simgen.deep()] * max(1, k // 2)
-    return st.one_of(*opts)
+    return trusting(st.one_of(*opts))
+
+
+def trusting(base):
+    """Half of the scenarios run with `trusting 1`: processes release what they were told they hold
+    (SUCCESS, and no PREEMPTED since) without first asking the library - what a user program does."""
+    return st.tuples(base, st.booleans()).map(
+        lambda t: t[0].replace("start 0\n", "start 0\ntrusting 1\n", 1) if t[1] else t[0])
 
 
 def evaluate_family(text, ctx, family, nontrivial, variant="asan"):
